@@ -15,13 +15,13 @@ theorem api_file_name {i : ToolInput} {o : ToolOutput} (h : runTool i = .ok o) :
   obtain ⟨root, d, r, ws, text, gen, hd, _, _, _, ho⟩ := pl_runTool_ok h
   subst ho
   refine ⟨rfl, ?_⟩
-  unfold discoverFrom at hd
+  unfold discoverSorted discoverFrom at hd
   dsimp only at hd
   split at hd
   · cases hd
   · simp only [Except.ok.injEq, Prod.mk.injEq] at hd
     simp only
-    rw [← hd.1]
+    rw [← hd.1, pl_adjustRoot_sortPaths]
 
 /-- `PurePath.stem` drops the last suffix only: examples (a leading dot and a trailing dot are no suffix separators) -/
 example : pyStemOfName "pkg" = "pkg" ∧ pyStemOfName "pkg.v2" = "pkg" ∧ pyStemOfName "a.b.c" = "a.b"
